@@ -165,15 +165,16 @@ def lean_search(chk, props_module, theorem, imports, opens, trials=120, binary=N
     import zlib
     rng = random.Random(chk.seed * 7919 + zlib.crc32(theorem.encode()) % 100000)
     state = {"pz": 0.0, "affine": False}
-    def val(ty):
+    def num():
+        if rng.random() < state["pz"]:
+            return "(0 : Rat)"
+        k = rng.choice([0, 1, -1, 2, -2, 3, 5, -7, 1, 2, 3])
+        return "(%d : Rat)" % k if rng.random() < 0.8 else "((%d : Rat) / 2)" % k
+    def gen(ty):
+        """leaf values (list of Lean terms) for one binder, or None for a type the search does not understand"""
         ty = ty.replace("α", "").strip()
-        def num():
-            if rng.random() < state["pz"]:
-                return "(0 : Rat)"
-            k = rng.choice([0, 1, -1, 2, -2, 3, 5, -7, 1, 2, 3])
-            return "(%d : Rat)" % k if rng.random() < 0.8 else "((%d : Rat) / 2)" % k
         if ty == "":
-            return num()
+            return [num()]
         if ty in ARITY:
             n = ARITY[ty].count("%s")
             vals = [num() for _ in range(n)]
@@ -183,17 +184,37 @@ def lean_search(chk, props_module, theorem, imports, opens, trials=120, binary=N
                 for r in range(d - 1):
                     vals[r * d + d - 1] = "(0 : Rat)"
                 vals[d * d - 1] = rng.choice(["(1 : Rat)", "(2 : Rat)", "(-3 : Rat)", "((1 : Rat) / 2)"])
-            return ARITY[ty] % tuple(vals)
+            return vals
         return None
+    def fmt(ty, vals):
+        ty = ty.replace("α", "").strip()
+        return vals[0] if ty == "" else ARITY[ty] % tuple(vals)
     cases = []
+    twin_slot = 0
     for t in range(trials):
         # structured generators: dense, sparse, very sparse, affine-pattern matrices
         state["pz"] = [0.0, 0.0, 0.5, 0.8][t % 4]
         state["affine"] = (t % 5 == 4)
-        vs = [val(ty) for (_, ty) in params]
-        if any(v is None for v in vs):
+        raw = [gen(ty) for (_, ty) in params]
+        if any(v is None for v in raw):
             return None
-        cases.append(vs)
+        if t % 3 == 2:
+            # twins: a later binder of the same type is a copy of an earlier one except in ONE slot (cycling over the slots):
+            # the inputs on which a comparison / equalWith* / aliasing statement with one wrong index is false
+            seen = {}
+            for i, (_, ty) in enumerate(params):
+                k = ty.replace("α", "").strip()
+                if k in seen and len(raw[i]) > 1:
+                    cp = list(raw[seen[k]])
+                    j = twin_slot % len(cp)
+                    twin_slot += 1
+                    cur = (_flat_numbers(cp[j]) or [0.0])[0]
+                    nv = int(round(2 * cur)) + rng.choice([2, -4, 1, 6])          # in halves; never the old value
+                    cp[j] = "((%d : Rat) / 2)" % nv if nv % 2 else "(%d : Rat)" % (nv // 2)
+                    raw[i] = cp
+                else:
+                    seen.setdefault(k, i)
+        cases.append([fmt(ty, v) for (_, ty), v in zip(params, raw)])
     names = [n for (n, _) in params]
     tys = [("Rat" if ty.strip() == "α" else ty.replace("α", "Rat")) for (_, ty) in params]
     lines = ["import %s" % i for i in imports]
